@@ -610,33 +610,35 @@ func main() {
 						Consts: map[string]string{"FIXES": "{}", "LEVEL": "8", "EMIT": `"no"`}},
 					{Name: "handshake 3x3 depth 6, patched tree", Module: "Session", Cfg: "Session_c03t.cfg",
 						Consts: map[string]string{"FIXES": fixes, "LEVEL": "6", "EMIT": `"no"`}},
+					{Name: "handshake environment classes, complete", Module: "Session", Cfg: "Session_c03env.cfg",
+						Consts: map[string]string{"FIXES": fixes, "LEVEL": "99", "EMIT": `"no"`}},
 				})
 			}
 			return []fw.TLCJob{
-				{Name: "handshake 2x2 depth 7, patched tree", Module: "Session", Cfg: "Session_c03.cfg",
+				{Name: "handshake 2x2 depth 6", Module: "Session", Cfg: "Session_c03.cfg",
+					Consts: map[string]string{"FIXES": fixes, "LEVEL": "6", "EMIT": `"no"`}},
+				{Name: "handshake environment classes depth 7", Module: "Session", Cfg: "Session_c03env.cfg",
 					Consts: map[string]string{"FIXES": fixes, "LEVEL": "7", "EMIT": `"no"`}},
-				{Name: "handshake 2x2 depth 6, unpatched tree", Module: "Session", Cfg: "Session_c03.cfg",
-					Consts: map[string]string{"FIXES": "{}", "LEVEL": "6", "EMIT": `"no"`}},
 			}
 		},
 		GenJobs: func(env *fw.Env) []fw.TLCJob {
 			if env.Tier == "thorough" {
 				return withTimeout(40*time.Minute, []fw.TLCJob{
+					{Name: "gen:env", Module: "Session", Cfg: "Session_c03env.cfg", Workers: 8,
+						Consts: map[string]string{"FIXES": fixes, "LEVEL": "5", "EMIT": `"all"`}},
 					{Name: "gen:transitions 2x2", Module: "Session", Cfg: "Session_c03.cfg", Workers: 8,
 						Consts: map[string]string{"FIXES": fixes, "LEVEL": "6", "EMIT": `"all"`}},
 					{Name: "gen:transitions 3x3", Module: "Session", Cfg: "Session_c03t.cfg", Workers: 8,
 						Consts: map[string]string{"FIXES": fixes, "LEVEL": "4", "EMIT": `"all"`}},
-					{Name: "gen:env", Module: "Session", Cfg: "Session_c03env.cfg", Workers: 8,
-						Consts: map[string]string{"FIXES": fixes, "LEVEL": "5", "EMIT": `"all"`}},
 					{Name: "gen:simulate 3x3", Module: "Session", Cfg: "Session_c03t.cfg", Workers: 4, Simulate: "num=6000", Depth: 15, Seed: env.Seed,
 						Consts: map[string]string{"FIXES": fixes, "LEVEL": "14", "EMIT": `"last"`}},
 				})
 			}
-			return []fw.TLCJob{
-				{Name: "gen:transitions 2x2", Module: "Session", Cfg: "Session_c03.cfg", Workers: 8,
-					Consts: map[string]string{"FIXES": fixes, "LEVEL": "5", "EMIT": `"all"`}},
+			return []fw.TLCJob{ // gen:env first: identical lines of later jobs are dropped, not these
 				{Name: "gen:env", Module: "Session", Cfg: "Session_c03env.cfg", Workers: 8,
 					Consts: map[string]string{"FIXES": fixes, "LEVEL": "4", "EMIT": `"all"`}},
+				{Name: "gen:transitions 2x2", Module: "Session", Cfg: "Session_c03.cfg", Workers: 8,
+					Consts: map[string]string{"FIXES": fixes, "LEVEL": "5", "EMIT": `"all"`}},
 				{Name: "gen:simulate 2x2", Module: "Session", Cfg: "Session_c03.cfg", Workers: 4, Simulate: "num=600", Depth: 11, Seed: env.Seed,
 					Consts: map[string]string{"FIXES": fixes, "LEVEL": "10", "EMIT": `"last"`}},
 			}
